@@ -46,8 +46,10 @@ def jobs(tier, seed):
             for kern in c01.PROPOSALS:
                 for move in ("pg", "subtree", "burnin"):
                     for thr in ("3/4",) if n < 3 else ("1/2",):
-                        out.append({"name": f"sampler-{move}-{kern}-n{n}-out{int(outl)}-thr{thr}", "kind": "sampler", "move": move, "n": n, "G": 2,
-                                    "outliers": outl, "kernel": kern, "wiring": "run", "N": 2, "thr": thr, "fixed": {}, "cost": 30 * n ** 3})
+                        # burn-in SMC with two particles, three points and outliers runs > 25 min per job: one particle there
+                        N = 1 if (n == 3 and move == "burnin" and outl) else 2
+                        out.append({"name": f"sampler-{move}-{kern}-n{n}-out{int(outl)}-N{N}-thr{thr}", "kind": "sampler", "move": move, "n": n, "G": 2,
+                                    "outliers": outl, "kernel": kern, "wiring": "run", "N": N, "thr": thr, "fixed": {}, "cost": 30 * n ** 3})
     for move in ("dp", "prg"):
         out.append({"name": f"sampler-{move}-n3-out1", "kind": "sampler", "move": move, "n": 3, "G": 2, "outliers": True,
                     "kernel": None, "wiring": None, "N": 2, "thr": "1/2", "fixed": {}, "cost": 60})
